@@ -40,6 +40,7 @@ def presize(items, max_steps, limit_factor=1):
                 cache[ck] = e
         if isinstance(cache[ck], Exception):
             it.skip = 'compile: %s' % cache[ck]
+            it.meta['compile_kind'] = type(cache[ck]).__name__
             keep.append(it)          # let prepare() record the skip reason
             continue
         try:
@@ -170,6 +171,20 @@ def standard(prop, tier, seed, items, rule, t0, kinds=None, allow_exhausted=Fals
         vs += one
     if kinds is not None:
         vs = [v for v in vs if v.classifier['kind'] in kinds]
+    # output the assembler rejects, or an internal exception of the compiler, on a program of these families
+    # (all well-typed by construction) is a violation in its own right: nothing can be "computed as the source says"
+    seen_bad = set()
+    for it in items:
+        if it.skip and (it.skip.startswith('asm:') or (it.skip.startswith('compile:') and 'Crashed' in it.meta.get('compile_kind', ''))):
+            kd = 'not_assemblable' if it.skip.startswith('asm:') else 'compiler_crash'
+            key = (kd, it.src, it.w, it.unchecked)
+            if key in seen_bad or (kinds is not None and kd not in kinds and 'real_halt' in kinds):
+                continue
+            seen_bad.add(key)
+            vs.append(common.Violation(prop, '%s: %s (w=%d%s)' % (kd, it.skip[:160], it.w, ' unchecked' if it.unchecked else ''),
+                                       classifier={'kind': kd, 'family': it.meta.get('family', ''), 'w': it.w},
+                                       detail={'source': it.src, 'args': it.args, 'w': it.w, 's': it.s, 'unchecked': it.unchecked,
+                                               'error': it.skip}))
     if postfilter:
         vs = postfilter(vs, items)
     vs += list(extra_violations)
